@@ -3,7 +3,8 @@ from __future__ import print_function
 import logging
 
 from .util import (Source, print_dump, get_marked_atribute, split_pkg,
-                   get_marked_name, get_marked_import, get_all_usages, join_pkg)
+                   get_marked_name, get_marked_import, get_all_usages, join_pkg,
+                   marked)
 from .evaluator import EvalCtx
 from .nast import extract_scope
 
@@ -62,7 +63,7 @@ def assist(project, source, position, filename=None, debug=False):
         if name:
             names = name.flow.names_at(position)
 
-    return prefix, sorted(names)
+    return prefix, sorted(n for n in names if not marked(n))
 
 
 def _loc(location, filename):
